@@ -168,6 +168,18 @@ def run(binary, stdin_data = b"", args = (), timeout = 300, twin = True):
 	return p.returncode, p.stdout, p.stderr
 
 
+def run_patient(binary, stdin_data = b"", args = (), timeout = 300):
+	""" Like run(), for drivers whose whole job takes seconds: if it does not finish within `timeout`
+	    (hundreds of times its normal duration) it is run once more; a second timeout is returned as
+	    returncode "hang" - the code under test does not terminate - instead of None (slow machine). """
+	rc, out, err = run(binary, stdin_data, args = args, timeout = timeout)
+	if rc is None:
+		rc, out, err = run(binary, stdin_data, args = args, timeout = timeout, twin = False)
+		if rc is None:
+			return "hang", out, err
+	return rc, out, err
+
+
 def sanitizer_summary(stderr):
 	""" First sanitizer report line (if any) out of a driver's stderr. """
 	txt = stderr.decode(errors = "replace")
@@ -196,17 +208,21 @@ def attach(tag):
 	return bd
 
 
-def run_cases(binary, cases, timeout = 600, args = (), twin = True):
+def run_cases(binary, cases, timeout = 120, args = (), twin = True):
 	""" Feed a list of case scripts (bytes, each starting with a line
 	    b"N <index>\n" that makes the driver print "CASE <index>") to a driver.
 	    Returns (outputs, crashes): outputs[i] = list of stdout lines of case i
 	    (None if it never ran), crashes = list of (index, returncode, stderr tail,
 	    sanitizer summary).  After a crash the remaining cases are re-submitted
-	    to a fresh process, so one defect does not mask the rest. """
+	    to a fresh process, so one defect does not mask the rest.  A batch that
+	    does not finish is not a verdict by itself: the case it stopped in is run
+	    again alone; only if that single case (milliseconds of work) still does not
+	    finish within a minute it is recorded as a hang (returncode "hang"). """
 	outputs = [None] * len(cases)
 	crashes = []
 	start = 0
 	guard = 0
+	hangs = 0
 	while start < len(cases):
 		guard += 1
 		if guard > 25:
@@ -216,14 +232,38 @@ def run_cases(binary, cases, timeout = 600, args = (), twin = True):
 		cur = None
 		for line in out.decode(errors = "replace").split("\n"):
 			if line.startswith("CASE "):
-				cur = int(line[5:])
+				try:
+					cur = int(line[5:])
+				except ValueError:
+					continue
+				if not 0 <= cur < len(cases):
+					cur = None
+					continue
 				outputs[cur] = []
 			elif cur is not None and line != "":
 				outputs[cur].append(line)
 		if rc == 0:
 			break
-		# the driver died: the last case that printed its marker is the culprit
 		bad = cur if cur is not None else start
+		if rc is None:
+			# the batch did not finish: is it this case, or just a slow machine?
+			rc1, out1, err1 = run(binary, cases[bad], args = args, timeout = 60, twin = False)
+			if rc1 is None:
+				hangs += 1
+				outputs[bad] = [l for l in (out1 or b"").decode(errors = "replace").split("\n")[1:] if l]
+				crashes.append((bad, "hang", (err1 or b"").decode(errors = "replace")[-1500:],
+					"no progress: run alone, this one case did not finish within 60 s"))
+				if hangs >= 2:
+					break
+				# one confirmed hang: do not wait long for the next one
+				timeout = min(timeout, 20)
+				start = bad + 1
+				continue
+			# it finishes alone: resume from it with a longer batch timeout
+			timeout = timeout * 3
+			start = bad
+			continue
+		# the driver died: the last case that printed its marker is the culprit
 		crashes.append((bad, rc, err.decode(errors = "replace")[-3000:], sanitizer_summary(err)))
 		start = bad + 1
 	return outputs, crashes
